@@ -189,6 +189,18 @@ PROPS["C08"] = {
     ],
     "assumptions": ["the transport delivers the client's bytes in order", "adapters awaited inline return"],
 }
+PROPS["C12"] = {
+    "runner": "c12",
+    "design_ref": "DESIGN.md §6 C12",
+    "technique": "Lean 4 theorems: form-urlencoding is inverted by server-side decoding (structural automaton), contains no delimiter, the parsed query is exactly [(username, name), (serverId, hash)] and the path is constant, for every byte string; differential correspondence of the request target captured from the real MojangAdapter by a loopback mock session server (verif-hooks base URL override)",
+    "level_text": "Machine-checked proofs for every claimed name (any byte string) and every hash: decoding the encoded name returns the name; the encoding contains none of & = # ? / or space; parsing the query as a server does (split on &, first =, form-decode) yields exactly one username equal to the name and one serverId equal to the hash; the target is the constant path, one ?, then that query. The real adapter is driven with hostile names against a plain-HTTP mock on loopback and the raw request line is compared with the model's target byte for byte; the hash is the C11 model's. Non-2xx and non-JSON replies must be errors.",
+    "level_note": "Trusted: Lean kernel; the url/reqwest crates' query serialisation is modelled (Url.enc) and compared on every case; the hook replaces scheme and authority of the session URL only (path and query untouched); hyper's request-line formatting.",
+    "lean_modules": ["Passage.Props.C12"],
+    "cases": {"quick": 1200, "thorough": 60000},
+    "rule": "names from a list of delimiter/injection strings (&, =, #, ?, %, +, space, /, control characters, %26 look-alikes, multi-byte UTF-8, full injection attempts), pairs of them, random printable ASCII, ordinary names; server ids incl. ones with delimiters; random secrets and key encodings; replies profile/204/500/non-JSON; non-trivial = names with a non-alphanumeric character; distinct = distinct request lines",
+    "trusted_base": TB_COMMON + ["url/reqwest/hyper request construction (captured request line compared with the model)", "verif-hooks: PASSAGE_VERIF_SESSION_BASE replaces scheme+authority only"],
+    "assumptions": ["the session server parses the query as application/x-www-form-urlencoded"],
+}
 
 # properties not claimed yet (kept current; the reason is the honest status)
 NOT_YET = {f"C{i:02d}": "check not built yet in this round (planned per DESIGN.md §9); no claim is made until its check runs green" for i in range(1, 21)}
